@@ -96,6 +96,7 @@ EXTRA = [('came', ['/came/from/1', '', '0', ' ']),             # what the applic
          ('mixed', [False, True]),
          ('rcpt2', ['same', 'foreign-first', 'foreign-last']),
          ('unsol_spelling', ['bool', 'str']),                    # allow_unsolicited written as a Python bool or as the string "true" / "false" (JSON / YAML style configuration)
+         ('near', ['no', 'port', 'userinfo', 'fragment']),       # what a 'foreign' Destination / Recipient looks like: another site, or the own endpoint with a port, user-info or fragment added
          ('dest_empty', ['no', 'yes']),                          # the Destination attribute is there with an empty value (present, and no endpoint of the SP)
          ('aud_empty', ['no', 'alone', 'beside-me'])]            # an AudienceRestriction that names nobody (alone, or next to one naming the SP)  # a further bearer confirmation whose Recipient differs from the row's (own endpoint vs foreign)                               # a conformant EncryptedAssertion rides along; the row's conditions sit in a plain Assertion next to it
 
@@ -114,6 +115,17 @@ def generated_strategy():
     return st.lists(st.tuples(st.integers(0, len(dims) - 1), st.integers(1, 6)), min_size=2, max_size=8).map(build_row)
 
 
+def _foreign(row, acs):
+    n = row.get('near', 'no')
+    if n == 'port':
+        return acs.replace('https://sp.verif.example/', 'https://sp.verif.example:8443/', 1)
+    if n == 'userinfo':
+        return acs.replace('https://', 'https://staging@', 1)
+    if n == 'fragment':
+        return acs + '#x'
+    return 'https://evil.example.net/acs'
+
+
 def judge(row):
     """('reject', reasons) | ('accept', []) | ('unjudged', [])"""
     reasons = []
@@ -129,7 +141,7 @@ def judge(row):
     if browser and row.get('dest_empty', 'no') == 'yes':
         reasons.append('Destination is present (with an empty value) and is no endpoint of the SP')
     elif browser and row['dest'] in ('own-other-binding', 'foreign'):
-        dest = {'own-other-binding': ACS['redirect' if row['binding'] == 'post' else 'post'], 'foreign': 'https://evil.example.net/acs'}[row['dest']]
+        dest = {'own-other-binding': ACS['redirect' if row['binding'] == 'post' else 'post'], 'foreign': _foreign(row, ACS.get(row['binding'], ACS['post']))}[row['dest']]
         if row['regex'] == 'match' and dest.startswith('https://sp.verif.example/'):
             pass    # matches the configured pattern
         else:
@@ -182,14 +194,14 @@ def run(row):
     for part in row['scd'].split('+'):
         data = dict(a['subject']['confirmations'][0]['data'])
         data['in_response_to'] = irts[part]
-        data['recipient'] = {'endpoint': acs, 'entity': spside.SP, 'foreign': 'https://evil.example.net/acs'}[row['rcpt']]
+        data['recipient'] = {'endpoint': acs, 'entity': spside.SP, 'foreign': _foreign(row, acs)}[row['rcpt']]
         confs.append({'method': build.BEARER, 'data': data})
     if row.get('rcpt2', 'same') != 'same':
         # one more confirmation, identical to the first except for the Recipient: foreign where the row's is own and the other way round is already covered by rcpt=foreign
         extra = {'method': build.BEARER, 'data': dict(confs[0]['data'], recipient='https://evil.example.net/acs')}
         confs = [extra] + confs if row['rcpt2'] == 'foreign-first' else confs + [extra]
     a['subject']['confirmations'] = confs
-    r['destination'] = {'own': acs, 'own-other-binding': ACS['redirect' if row['binding'] == 'post' else 'post'], 'foreign': 'https://evil.example.net/acs', 'absent': None}[row['dest']]
+    r['destination'] = {'own': acs, 'own-other-binding': ACS['redirect' if row['binding'] == 'post' else 'post'], 'foreign': _foreign(row, acs), 'absent': None}[row['dest']]
     if row.get('dest_empty', 'no') == 'yes':
         r['destination'] = ''
     if row['aud'] == 'no-conditions':
